@@ -30,7 +30,7 @@ META = {
             "find_line_end = the maximal LF-delimited segment containing the offset; Span::new succeeds iff ordered boundary offsets; lines_span/lines = "
             "the consecutive lines meeting [start,end]; rendering an error from a position or a span NEVER panics (all inputs); outside the decidable known "
             "classes the position rendering equals the expected layout (line number, line text, marker under the column, tabs kept) and the span rendering "
-            "shows line number, line text, marker column and the last line met (Spec.span_shows). The full statement C10_statement is refuted "
+            "shows line number, line text, marker column and the last line met, all rows sharing one gutter column (Spec.span_shows). The full statement C10_statement is refuted "
             "(C10_statement_refuted, C10_K1_refuted, C10_span_refuted: four witnesses K1..K4, replayed on the real code every run and printed as KNOWN-FINDING). "
             "The theorem is proved for all four models of Error::new_from_span (flags fix_continued / fix_eoi_line = with fixes/C10-1-continued-line-visualize.patch / "
             "fixes/C10-2-empty-span-at-end-line.patch, chosen by probing the tree); a repaired class is empty (C10_K2_empty_when_patched, C10_K4_empty_when_patched, "
